@@ -119,6 +119,24 @@ def resolve_contract(eng, closure, args, kwargs):
     return GExp(c)
 
 
+def walker_name():
+    """name of the nested recursive walker of resolve_global_constants, read from the CURRENT AST by ROLE: the nested function that the
+    outer body itself calls on the expression (its result is what the method returns).  A renamed walker is the same walker."""
+    import ast
+    from vlib.pyvc.engine import fn_ast
+    try:
+        from pytezos.context.impl import ExecutionContext
+        node = fn_ast(ExecutionContext.__dict__['resolve_global_constants'])
+        nested = {n.name for n in node.body if isinstance(n, ast.FunctionDef)}
+        called = [c.func.id for st in node.body if not isinstance(st, ast.FunctionDef) for c in ast.walk(st)
+                  if isinstance(c, ast.Call) and isinstance(c.func, ast.Name) and c.func.id in nested]
+        if called:
+            return called[0]
+    except Exception:   # noqa
+        pass
+    return '_resolve'
+
+
 def ctx_obj():
     from pytezos.context.impl import ExecutionContext
     o = Obj(ExecutionContext)
@@ -151,7 +169,7 @@ def h_node(form, k):
     from pytezos.context.impl import ExecutionContext
 
     def h(e: Engine):
-        e.closure_contracts['_resolve'] = dict(handler=resolve_contract, inline_depth=1)
+        e.closure_contracts[walker_name()] = dict(handler=resolve_contract, inline_depth=1)
         ctx = ctx_obj()
         kids = children(k, 'child')
         any_unknown = z3.Or(*[Unknown(c.term) for c in kids]) if kids else z3.BoolVal(False)
@@ -191,7 +209,7 @@ def h_constant(shape):
     from pytezos.context.impl import ExecutionContext
 
     def h(e: Engine):
-        e.closure_contracts['_resolve'] = dict(handler=resolve_contract, inline_depth=1)
+        e.closure_contracts[walker_name()] = dict(handler=resolve_contract, inline_depth=1)
         ctx = ctx_obj()
         hk = GHashTok(z3.Const('hash', NodeS), 'h')
         tag = f'_resolve[constant,{shape}]'
